@@ -83,9 +83,9 @@ def _solve_all(cases):
 def generate(rng, tier, n):
     probs, solve_cases = [], []
     for _ in range(n + n // 4 + 2):
-        # optional breaks are NOT generated here: the bundled checker rejects many valid documents with breaks for reasons that
-        # are not separated yet (notes/C12.md "Breaks"); the three that are understood are findings C12-F10 / F12 (corpus cases)
-        p = e2e.gen_checked_problem(rng, exclude=('breaks',))
+        # optional breaks ARE generated (E2EX3): every rejection of a valid document with breaks is attributed to a structural
+        # cause by a twin of the checker's reading of breaks (`_bk_*` below; findings C12-F10 / F12 / F14 / F15 / F16)
+        p = e2e.gen_checked_problem(rng)
         probs.append(p)
         gens = rng.choice([1, 2, 3, rng.range(4, 20)])
         solve_cases.append({'op': 'solve', 'problem': p['problem'], 'matrices': p['matrices'],
@@ -203,6 +203,15 @@ def mutate(problem, sol, m):
     elif op == 'MLimitSize':
         for vt in vtypes(m['k']):
             vt.setdefault('limits', {})['tourSize'] = len(_job_acts_ids(tours[m['k']]['stops'])) - 1
+    elif op == 'MBreakLoc':
+        stop()['activities'][m['a']]['location'] = {'index': m['l']}
+    elif op == 'MBreakDup':
+        stop()['activities'].insert(m['a'] + 1, copy.deepcopy(stop()['activities'][m['a']]))
+    elif op == 'MBreakDrop':
+        if len(stop()['activities']) == 1:
+            del tours[m['k']]['stops'][m['s']]
+        else:
+            del stop()['activities'][m['a']]
     else:
         raise ValueError(op)
     return p, s
@@ -223,8 +232,10 @@ def g_mutation(m, ids):
         return '(%s %s)' % (op, n('i'))
     if op in ('MCopyStop', 'MMoveStop'):
         return '(%s %s %s %s)' % (op, n('k'), n('s'), n('k2'))
-    if op == 'MBoth':
-        return '(MBoth %s %s %s)' % (n('k'), n('s'), n('a'))
+    if op in ('MBoth', 'MBreakDup', 'MBreakDrop'):
+        return '(%s %s %s %s)' % (op, n('k'), n('s'), n('a'))
+    if op == 'MBreakLoc':
+        return '(MBreakLoc %s %s %s %s)' % (n('k'), n('s'), n('a'), z(m['l']))
     if op == 'MStatTour':
         return '(MStatTour %s %s %s)' % (n('k'), n('f'), z(m['d']))
     if op == 'MStatTotal':
@@ -267,7 +278,9 @@ def mut_class(m, sol=None):
         return 'stat-tour-' + FIELDS[m['f']]
     if op == 'MStatTotal':
         return 'stat-total-' + FIELDS[m['f']]
-    return {'MLimitDistance': 'limit-max-distance', 'MLimitDuration': 'limit-max-duration', 'MLimitSize': 'limit-tour-size'}[op]
+    return {'MLimitDistance': 'limit-max-distance', 'MLimitDuration': 'limit-max-duration', 'MLimitSize': 'limit-tour-size',
+            'MBreakLoc': 'misplaced-break-location', 'MBreakDup': 'misplaced-break-duplicated',
+            'MBreakDrop': 'misplaced-break-dropped'}[op]
 
 
 # violation constructors of valid_b the proofs derive for each operator (sanity check of the theorem instances)
@@ -276,11 +289,14 @@ EXPECT = {'MLoad': ('RLoad',), 'MDistance': ('RDistance',), 'MUnknownAct': ('AFo
           'MMoveStop': ('AJobDuplicated',), 'MBoth': ('AJobDuplicated',), 'MStatTotal': ('RTotal',),
           'MLimitDistance': ('FMaxDistance',), 'MLimitDuration': ('FMaxDuration',), 'MLimitSize': ('FTourSize',),
           'MCapacity': ('FCapacity',), 'MArrival': ('RArrival', 'RNoReplay'),
-          'MDupAct': ('AJobIncomplete', 'AJobOrder')}
+          'MDupAct': ('AJobIncomplete', 'AJobOrder'),
+          'MBreakLoc': ('RActLocation', 'RNoReplay'), 'MBreakDup': ('FNoTour', 'RNoReplay', 'ABreak'),
+          'MBreakDrop': ('RStatBreak', 'RNoReplay')}
 
 
 # breaches that necessarily damage other rules too (an inserted stop breaks load and routing): the checker's dedicated message
-DEDICATED = {'MCopyStop': 'job served in multiple tours', 'MMoveStop': 'job served in multiple tours'}
+DEDICATED = {'MCopyStop': 'job served in multiple tours', 'MMoveStop': 'job served in multiple tours',
+             'MBreakLoc': 'break location'}
 
 
 def _spread(xs, cap, rot):
@@ -341,6 +357,8 @@ def sites(p, s, cap, rot=0):
             add({'op': 'MLimitDuration', 'k': k})
         if len(_job_acts_ids(stops)) >= 1:
             add({'op': 'MLimitSize', 'k': k})
+        for m in _break_sites(p, k, t):
+            add(m)
     for f in range(7):
         add({'op': 'MStatTotal', 'f': f, 'd': 1})
     add({'op': 'MUnknownUn'})
@@ -451,31 +469,265 @@ def _prefix(msg):
     return re.split(r"[':0-9]", str(msg))[0].strip().replace(' ', '-')[:60] or 'error'
 
 
-def _break_structure(prob, sol):
-    """structural qualifier of a rejection that names a break (tours with a break activity only):
-    /offset-break-and-job-at-departure-stop: the checker resolves offset intervals against the DEPARTURE OF THE FIRST STOP
-        (activity_matcher.rs::get_route_start_time, breaks.rs::get_break_time_window), which is the end of the last activity
-        merged into that stop when jobs are served at the start location, not the tour's departure time;
-    /two-breaks-of-the-shift-overlap-in-time: checker/mod.rs::get_activity_type and activity_matcher.rs::try_match_point_job
-        attribute a break activity to the FIRST break of the shift whose time interval intersects the activity's; location,
-        duration and tag are then held against that break only"""
-    out = ''
-    for t in sol['tours']:
-        vt = e2e.vehicle_type_of({'problem': prob}, t)
-        if vt is None or not any(a.get('type') == 'break' for st in t['stops'] for a in st['activities']):
+# ---- TWIN of the bundled checker's reading of optional breaks (checker/breaks.rs, checker/mod.rs::get_activity_type,
+# format/solution/activity_matcher.rs::try_match_point_job, checker/assignment.rs::is_valid_job_info).  It is used ONLY to name
+# the structural cause of a rejection of a document that valid_b accepts (and to pick breach sites); it never produces a
+# verdict.  A rejection gets a known-finding class only when the twin REPRODUCES the numbers of the message and the whole
+# discrepancy is explained by the named causes; anything else keeps the bare class and is a VIOLATION.
+#   F12 /offset-break-and-job-at-departure-stop: offset intervals are resolved against the DEPARTURE OF THE FIRST STOP
+#       (get_route_start_time, get_break_time_window), the end of the last activity merged into that stop, not the tour's departure
+#   F10 /two-breaks-of-the-shift-overlap-in-time: a break activity is attributed to the FIRST break of the shift whose interval
+#       intersects the activity's time; location, duration and tag are held against that break only
+#   F14 /break-followed-by-another-activity-in-its-stop: check_break_assignment walks activities.windows(2) and counts a break once
+#       per PAIR that contains it
+#   F15 /no-intersection-break-ends-before-departure, /break-starts-exactly-at-tour-arrival: expected_break_count reads
+#       skip-if-no-intersection as `break.start < arrival`; the solver (features/breaks.rs::can_be_scheduled) and vehicles.md as
+#       "the break window intersects [departure, arrival]"
+#       /jobs-in-the-arrival-stop: the tour's arrival is taken from the LAST STOP's arrival, which is the arrival of the first
+#       activity merged into that stop, not the arrival of the tour's end activity
+#   F16 break:first-fitting-place-has-another-duration: match_place returns the first place of the break whose location and
+#       time fit; is_valid_job_info then expects that place's duration (the twin of F7 / F13 for break places)
+ABE = 'skip-if-arrival-before-end'
+
+
+def _bw(b, dep):
+    w = e2e.break_window(b)
+    return (w[0] + dep, w[1] + dep) if e2e.break_is_offset(b) else w
+
+
+def _isect(a, b):
+    return a[0] <= b[1] and b[0] <= a[1]
+
+
+def _bk_tour(prob, t):
+    """a tour as the twin sees it: optional breaks of its shift, flattened activities, the two readings of departure / arrival"""
+    vt = e2e.vehicle_type_of({'problem': prob}, t)
+    if vt is None or t.get('shiftIndex', 0) >= len(vt['shifts']) or not t.get('stops'):
+        return None
+    acts = []
+    for si, st in enumerate(t['stops']):
+        arr = e2e.secs(st['time']['arrival'])
+        for ai, a in enumerate(st['activities']):
+            if a.get('time'):
+                b, e = e2e.secs(a['time']['start']), e2e.secs(a['time']['end'])
+            else:
+                b, e = e2e.secs(st['time']['arrival']), e2e.secs(st['time']['departure'])
+            acts.append({'kind': a.get('type'), 'loc': (a.get('location') or st['location'])['index'], 'arr': arr, 'start': b,
+                         'end': e, 'tag': a.get('jobTag'), 'si': si, 'ai': ai, 'n': len(st['activities'])})
+            arr = e
+    if not acts:
+        return None
+    return {'t': t, 'brs': e2e.optional_breaks(vt['shifts'][t.get('shiftIndex', 0)]), 'acts': acts,
+            'ds': e2e.secs(t['stops'][0]['time']['departure']), 'dt': acts[0]['end'],
+            'as': e2e.secs(t['stops'][-1]['time']['arrival']), 'at': acts[-1]['arr']}
+
+
+def _bk_tours(prob, sol, vehicle=None, shift=None):
+    out = []
+    for t in sol.get('tours') or []:
+        if (vehicle is None or t.get('vehicleId') == vehicle) and (shift is None or t.get('shiftIndex', 0) == shift):
+            T = _bk_tour(prob, t)
+            if T is not None:
+                out.append(T)
+    return out
+
+
+def _resolve(T, a, dep):
+    """checker/mod.rs::get_activity_type for a break activity: index of the first break whose interval intersects its time"""
+    for bi, b in enumerate(T['brs']):
+        if _isect(_bw(b, dep), (a['start'], a['end'])):
+            return bi
+    return None
+
+
+def _chk_expect(b, dep, arr):            # breaks.rs expected_break_count (should_assign)
+    w = _bw(b, dep)
+    return arr > w[1] if b.get('policy') == ABE else w[0] < arr
+
+
+def _slv_required(b, dep, arr):          # features/breaks.rs can_be_scheduled
+    w = _bw(b, dep)
+    return arr > w[1] if b.get('policy') == ABE else (w[0] <= arr and dep <= w[1])
+
+
+def _bk_violations(sol, T):
+    return sum(1 for v in sol.get('violations') or [] if v.get('type') == 'break' and v.get('vehicle_id') == T['t'].get('vehicleId')
+               and v.get('shift_index', 0) == T['t'].get('shiftIndex', 0))
+
+
+def _bk_amount_ok(sol, T):
+    """the checker's amount-of-breaks rule holds for this tour (breach sites: duplicating / dropping a break must break it)"""
+    n = sum(1 for a in T['acts'] if a['kind'] == 'break')
+    return sum(1 for b in T['brs'] if _chk_expect(b, T['ds'], T['as'])) == n + _bk_violations(sol, T)
+
+
+def _amount_causes(sol, T, exp, got):
+    brs, ds, dt, as_, at = T['brs'], T['ds'], T['dt'], T['as'], T['at']
+    n = sum(1 for a in T['acts'] if a['kind'] == 'break')
+    if sum(1 for b in brs if _chk_expect(b, ds, as_)) != exp or n + _bk_violations(sol, T) != got \
+            or sum(1 for b in brs if _slv_required(b, dt, at)) != got:
+        return ['']                       # the twin does not reproduce the numbers / the solver contradicts its own rule
+    causes = set()
+    for b in brs:
+        s = _slv_required(b, dt, at)
+        if _chk_expect(b, ds, as_) == s:
             continue
-        brs = e2e.optional_breaks(vt['shifts'][t.get('shiftIndex', 0)])
-        first = t['stops'][0]
-        acts = first['activities']
-        dep = e2e.secs(acts[0]['time']['end']) if acts and acts[0].get('time') else e2e.secs(first['time']['departure'])
-        if any(e2e.break_is_offset(b) for b in brs) and dep != e2e.secs(first['time']['departure']):
-            return '/offset-break-and-job-at-departure-stop'
-        ws = []
-        for b in brs:
-            w = e2e.break_window(b)
-            ws.append((w[0] + dep, w[1] + dep) if e2e.break_is_offset(b) else w)
-        if any(ws[i][0] <= ws[j][1] and ws[j][0] <= ws[i][1] for i in range(len(ws)) for j in range(i + 1, len(ws))):
-            out = '/two-breaks-of-the-shift-overlap-in-time'
+        if _chk_expect(b, dt, at) == s:   # the checker's own formula agrees once it reads the tour's departure / arrival
+            if _chk_expect(b, dt, as_) == s:
+                causes.add('/offset-break-and-job-at-departure-stop')
+            elif _chk_expect(b, ds, at) == s:
+                causes.add('/jobs-in-the-arrival-stop')
+            else:
+                causes |= {'/offset-break-and-job-at-departure-stop', '/jobs-in-the-arrival-stop'}
+        else:
+            w = _bw(b, dt)
+            if b.get('policy') != ABE and w[1] < dt and not s:
+                causes.add('/no-intersection-break-ends-before-departure')
+            elif b.get('policy') != ABE and w[0] == at and s:
+                causes.add('/break-starts-exactly-at-tour-arrival')
+            else:
+                causes.add('')
+    return sorted(causes) or ['']
+
+
+def _pairs(T):
+    """breaks.rs: stop.activities().windows(len.min(2)) -> (from, to) per stop"""
+    by = {}
+    for a in T['acts']:
+        by.setdefault(a['si'], []).append(a)
+    out = []
+    for si in sorted(by):
+        la = by[si]
+        out += [(None, la[0])] if len(la) == 1 else list(zip(la, la[1:]))
+    return out
+
+
+def _matched(T, dep):
+    n = 0
+    for f, to in _pairs(T):
+        for x in (to, f):
+            if x is not None and x['kind'] == 'break' and _resolve(T, x, dep) is not None:
+                n += 1
+                break
+    return n
+
+
+def _matched_causes(T, matched, actual):
+    bacts = [a for a in T['acts'] if a['kind'] == 'break']
+    if len(bacts) != actual or _matched(T, T['ds']) != matched:
+        return ['']
+    causes = set()
+    if _matched(T, T['dt']) != matched:
+        causes.add('/offset-break-and-job-at-departure-stop')
+    if _matched(T, T['dt']) != actual:
+        if all(_resolve(T, a, T['dt']) is not None for a in bacts) and any(a['ai'] < a['n'] - 1 for a in bacts):
+            causes.add('/break-followed-by-another-activity-in-its-stop')
+        else:
+            causes.add('')
+    return sorted(causes) or ['']
+
+
+def _unresolved_causes(Ts):
+    """a break activity that no break of the shift claims (\"cannot find break for tour\")"""
+    causes = set()
+    for T in Ts:
+        for a in T['acts']:
+            if a['kind'] == 'break' and _resolve(T, a, T['ds']) is None:
+                causes.add('/offset-break-and-job-at-departure-stop' if _resolve(T, a, T['dt']) is not None else '')
+    return sorted(causes) or ['']
+
+
+def _place_ok(b, loc_to, loc_from):
+    return any(pl['location']['index'] == loc_to if pl.get('location') is not None else loc_from == loc_to for pl in b['places'])
+
+
+def _location_causes(Ts):
+    """breaks.rs has_match: the places of the break the activity was attributed to, held against the location of `to`"""
+    causes = set()
+    for T in Ts:
+        for f, to in _pairs(T):
+            x = next((y for y in (to, f) if y is not None and y['kind'] == 'break' and _resolve(T, y, T['ds']) is not None), None)
+            if x is None:
+                continue
+            lf = f['loc'] if f is not None else to['loc']
+            if _place_ok(T['brs'][_resolve(T, x, T['ds'])], to['loc'], lf):
+                continue
+            bt = _resolve(T, x, T['dt'])
+            if bt is not None and bt != _resolve(T, x, T['ds']) and _place_ok(T['brs'][bt], to['loc'], lf):
+                causes.add('/offset-break-and-job-at-departure-stop')
+            elif any(_isect(_bw(b, T['ds']), (x['start'], x['end'])) and _place_ok(b, to['loc'], lf) for b in T['brs']):
+                causes.add('/two-breaks-of-the-shift-overlap-in-time')
+            else:
+                causes.add('')
+    return sorted(causes) or ['']
+
+
+def _match_break(T, a, dep):
+    """try_match_point_job for a break activity, then is_valid_job_info: (break index, place index, valid) | None"""
+    for bi, b in enumerate(T['brs']):
+        w = _bw(b, dep)
+
+        def fits(pl):
+            return (pl.get('location') is None or pl['location']['index'] == a['loc']) and _isect(w, (a['start'], a['end']))
+        job_tag = next((pl['tag'] for pl in b['places'] if pl.get('tag') is not None and fits(pl)), None)
+        if job_tag != a['tag']:
+            continue
+        for pi, pl in enumerate(b['places']):
+            if fits(pl):
+                d = int(pl['duration'])
+                tws = a['end'] - d if e2e.break_is_offset(b) else w[0]
+                return bi, pi, a['end'] == max(a['start'], tws) + d
+    return None
+
+
+def _match_causes(Ts, tag):
+    causes = set()
+    for T in Ts:
+        for a in T['acts']:
+            if a['kind'] != 'break' or (a['tag'] or '<no tag>') != tag:
+                continue
+            r = _match_break(T, a, T['ds'])
+            if r is not None and r[2]:
+                continue
+            r2 = _match_break(T, a, T['dt'])
+            exact = [(bi, pi) for bi, b in enumerate(T['brs']) for pi, pl in enumerate(b['places'])
+                     if (pl.get('location') is None or pl['location']['index'] == a['loc'])
+                     and int(pl['duration']) == a['end'] - a['start'] and pl.get('tag') == a['tag']
+                     and a['start'] == max(a['arr'], _bw(b, T['dt'])[0])]
+            if r2 is not None and r2[2]:
+                causes.add('break:offset-break-and-job-at-departure-stop')
+            elif r2 is None or not exact:
+                causes.add('break')
+            elif r2[0] not in [bi for bi, _ in exact]:
+                causes.add('break:two-breaks-of-the-shift-overlap-in-time')
+            elif (r2[0], r2[1]) not in exact:
+                causes.add('break:first-fitting-place-has-another-duration')
+            else:
+                causes.add('break')
+    return sorted(causes) or ['break']
+
+
+def _break_sites(p, k, t):
+    """sites of the "misplaced break" operators in tour k.  MBreakLoc: a break the checker attributes to some break (twin), not the
+    first activity of a stop it shares (breaks.rs then holds the NEXT activity's location against the places), reported at a
+    location where no place of any break of the shift is; MBreakDup / MBreakDrop: a break that takes time, in a tour for which the
+    checker's amount-of-breaks rule holds"""
+    T = _bk_tour(p['problem'], t)
+    if T is None or not T['brs']:
+        return []
+    n = e2e.matrix_size(p['matrices'][0])
+    placed = {pl['location']['index'] for b in T['brs'] for pl in b['places'] if pl.get('location') is not None}
+    out = []
+    for a in T['acts']:
+        if a['kind'] != 'break':
+            continue
+        if _resolve(T, a, T['ds']) is not None and (a['ai'] >= 1 or a['n'] == 1):
+            free = [l for l in range(n) if l != t['stops'][a['si']]['location']['index'] and l != a['loc'] and l not in placed]
+            if free:
+                out.append({'op': 'MBreakLoc', 'k': k, 's': a['si'], 'a': a['ai'], 'l': free[(a['loc'] + 1) % len(free)]})
+        if a['end'] > a['start'] and _bk_amount_ok(p['solution_for_sites'], T):
+            out.append({'op': 'MBreakDup', 'k': k, 's': a['si'], 'a': a['ai']})
+            out.append({'op': 'MBreakDrop', 'k': k, 's': a['si'], 'a': a['ai']})
     return out
 
 
